@@ -315,8 +315,268 @@ def gen_registry(repo):
             + "\n\nDefinition registry_irs : irs := mkIrs ir_register ir_manage ir_launch ir_unqueue ir_aclose.\n")
 
 
+def gen_factory(repo):
+    """FactoryPool.run / _shrink / _grow / _reap_children / _release_child: the statement skeleton is matched exactly
+    (docstrings, comments and logging aside) and its expressions are transcribed into kit/FactoryIR.v's `fexpr` / `fcond`.
+    Anything that is not the expected statement at the expected place raises TranslationError."""
+    with open(os.path.join(repo, "src", "cobald", "composite", "factory.py")) as fh:
+        tree = ast.parse(fh.read())
+    cls = "FactoryPool"
+    ATTR = {"supply": "ASupply", "utilisation": "AUtil", "allocation": "AAlloc", "demand": "ADemand"}
+    CMP = {ast.Lt: "CLt", ast.LtE: "CLe", ast.Gt: "CGt", ast.GtE: "CGe"}
+
+    def fail(what, node=None):
+        raise TranslationError("factory.py: %s%s" % (what, " (line %d)" % node.lineno if node is not None and hasattr(node, "lineno") else ""))
+
+    def src(e):
+        return ast.unparse(e).replace(" ", "")
+
+    def body_of(fn):
+        b = list(fn.body)
+        if b and isinstance(b[0], ast.Expr) and isinstance(b[0].value, ast.Constant) and isinstance(b[0].value.value, str):
+            b = b[1:]
+        return b
+
+    def params(fn, want):
+        a = fn.args
+        got = [x.arg for x in a.posonlyargs + a.args + a.kwonlyargs]
+        if got != want or a.vararg or a.kwarg or a.defaults or [d for d in a.kw_defaults if d is not None]:
+            fail("%s: unexpected parameters %s" % (fn.name, got), fn)
+
+    def coll(e, scope):
+        t = src(e)
+        if t == "hit_list" and "hit_list" in scope:
+            return "CHit"
+        if t == "self.children":
+            return "CChildren"
+        if t == "self._hatchery":
+            return "CHatchery"
+        fail("unsupported collection %s" % t, e)
+
+    def fx(e, scope):
+        """scope: name -> fexpr text for the locals that may be read here; 'child' names the child variable"""
+        if isinstance(e, ast.Name):
+            if e.id in scope and scope[e.id] is not None:
+                return scope[e.id]
+            fail("unsupported name %s" % e.id, e)
+        if isinstance(e, ast.Constant) and type(e.value) is int:
+            return "(FConst %d)" % e.value if e.value >= 0 else "(FConst (%d))" % e.value
+        if isinstance(e, ast.BinOp) and isinstance(e.op, (ast.Sub, ast.Mult)):
+            return "(%s %s %s)" % ("FSub" if isinstance(e.op, ast.Sub) else "FMul", fx(e.left, scope), fx(e.right, scope))
+        if isinstance(e, ast.Attribute) and isinstance(e.value, ast.Name) and e.value.id == scope.get("child") and e.attr in ATTR:
+            return "(FChild %s)" % ATTR[e.attr]
+        if (isinstance(e, ast.Call) and isinstance(e.func, ast.Name) and e.func.id == "sum" and len(e.args) == 1 and not e.keywords
+                and isinstance(e.args[0], ast.GeneratorExp) and len(e.args[0].generators) == 1):
+            g = e.args[0].generators[0]
+            elt = e.args[0].elt
+            if (g.ifs or g.is_async or not isinstance(g.target, ast.Name) or not isinstance(elt, ast.Attribute)
+                    or not isinstance(elt.value, ast.Name) or elt.value.id != g.target.id or elt.attr not in ATTR):
+                fail("unsupported sum %s" % src(e), e)
+            return "(FSum %s %s)" % (ATTR[elt.attr], coll(g.iter, scope))
+        fail("unsupported expression %s" % src(e), e)
+
+    def fc(e, scope):
+        if isinstance(e, ast.Compare) and len(e.ops) == 1 and type(e.ops[0]) in CMP:
+            return "(FCmp %s %s %s)" % (CMP[type(e.ops[0])], fx(e.left, scope), fx(e.comparators[0], scope))
+        fail("unsupported condition %s" % src(e), e)
+
+    def expect(cond, what, node=None):
+        if not cond:
+            fail("expected " + what, node)
+
+    def is_selfcall(x, meth):
+        return (isinstance(x, ast.Expr) and isinstance(x.value, ast.Call) and src(x.value.func) == "self." + meth)
+
+    def acc_update(x, acc, scope):
+        """`acc -= e` / `acc = e` -> the new value of the accumulator"""
+        if isinstance(x, ast.AugAssign) and isinstance(x.target, ast.Name) and x.target.id == acc and isinstance(x.op, ast.Sub):
+            return "(FSub FAcc %s)" % fx(x.value, scope)
+        if isinstance(x, ast.Assign) and len(x.targets) == 1 and src(x.targets[0]) == acc:
+            return fx(x.value, scope)
+        fail("expected an update of %s" % acc, x)
+
+    P = {}
+    # ---- run
+    fn = find_function(tree, "run", cls=cls)
+    params(fn, ["self"])
+    b = body_of(fn)
+    expect(len(b) == 1 and isinstance(b[0], ast.While) and src(b[0].test) == "True" and not b[0].orelse, "run: `while True:`", fn)
+    w = b[0].body
+    expect(len(w) == 3 and isinstance(w[0], ast.Expr) and src(w[0].value) == "awaittrio.sleep(self.interval)",
+           "run: `await trio.sleep(self.interval)` first", fn)
+    scope = {}
+    x = w[1]
+    expect(isinstance(x, ast.Assign) and len(x.targets) == 1 and isinstance(x.targets[0], ast.Tuple) and isinstance(x.value, ast.Tuple)
+           and len(x.targets[0].elts) == len(x.value.elts) == 2, "run: `a, b = self.supply, self.demand`", x)
+    for t, v in zip(x.targets[0].elts, x.value.elts):
+        expect(isinstance(t, ast.Name) and src(v) in ("self.supply", "self.demand"), "run: locals bound to self.supply / self.demand", x)
+        scope[t.id] = "FSelfSupply" if src(v) == "self.supply" else "FSelfDemand"
+    x = w[2]
+    expect(isinstance(x, ast.If) and len(x.body) == 1 and len(x.orelse) == 1, "run: if/else with one call each", x)
+    P["run_cond"] = fc(x.test, scope)
+    targets = []
+    for br, meth in ((x.body[0], "_shrink"), (x.orelse[0], "_grow")):
+        expect(is_selfcall(br, meth) and not br.value.args and [k.arg for k in br.value.keywords] == ["target"],
+               "run: self.%s(target=...)" % meth, br)
+        targets.append(fx(br.value.keywords[0].value, scope))
+    expect(targets[0] == targets[1], "run: the same target for _shrink and _grow", x)
+    P["run_target"] = targets[0]
+    # ---- _shrink
+    fn = find_function(tree, "_shrink", cls=cls)
+    params(fn, ["self", "target"])
+    b = body_of(fn)
+    expect(len(b) == 4, "_shrink: four statements", fn)
+    x = b[0]
+    ok = (isinstance(x, ast.Assign) and src(x.targets[0]) == "hit_list" and isinstance(x.value, ast.Call) and src(x.value.func) == "sorted"
+          and len(x.value.args) == 1 and src(x.value.args[0]) == "self._hatchery" and [k.arg for k in x.value.keywords] == ["key"]
+          and isinstance(x.value.keywords[0].value, ast.Lambda))
+    expect(ok, "_shrink: hit_list = sorted(self._hatchery, key=lambda child: ...)", x)
+    lam = x.value.keywords[0].value
+    expect(len(lam.args.args) == 1 and not lam.args.defaults and not lam.args.vararg and not lam.args.kwarg, "_shrink: one-argument key", lam)
+    P["sort_key"] = fx(lam.body, {"child": lam.args.args[0].arg})
+    x = b[1]
+    expect(isinstance(x, ast.Assign) and len(x.targets) == 1 and src(x.targets[0]) == "excess_demand", "_shrink: excess_demand = ...", x)
+    P["excess_init"] = fx(x.value, {"target": "FTarget", "hit_list": None})
+    x = b[2]
+    expect(isinstance(x, ast.For) and src(x.iter) == "hit_list" and isinstance(x.target, ast.Name) and not x.orelse and len(x.body) == 2,
+           "_shrink: for child in hit_list: <two statements>", x)
+    scope = {"target": "FTarget", "excess_demand": "FAcc", "child": x.target.id, "hit_list": None}
+    i1, i2 = x.body
+    expect(isinstance(i1, ast.If) and not i1.orelse and len(i1.body) == 1 and isinstance(i1.body[0], ast.Break), "_shrink: if ...: break", i1)
+    P["break_if"] = fc(i1.test, scope)
+    expect(isinstance(i2, ast.If) and not i2.orelse and len(i2.body) == 2 and is_selfcall(i2.body[1], "_release_child")
+           and [src(a) for a in i2.body[1].value.args] == [x.target.id] and not i2.body[1].value.keywords,
+           "_shrink: if ...: excess_demand -= ...; self._release_child(child)", i2)
+    P["release_if"] = fc(i2.test, scope)
+    P["excess_step"] = acc_update(i2.body[0], "excess_demand", scope)
+    expect(is_selfcall(b[3], "_reap_children") and not b[3].value.args and not b[3].value.keywords, "_shrink: self._reap_children() last", b[3])
+    # ---- _grow
+    fn = find_function(tree, "_grow", cls=cls)
+    params(fn, ["self", "target"])
+    b = body_of(fn)
+    expect(len(b) == 3, "_grow: three statements", fn)
+    x = b[0]
+    expect(isinstance(x, ast.Assign) and len(x.targets) == 1 and src(x.targets[0]) == "missing_demand", "_grow: missing_demand = ...", x)
+    P["missing_init"] = fx(x.value, {"target": "FTarget"})
+    x = b[1]
+    expect(isinstance(x, ast.While) and not x.orelse and len(x.body) == 4, "_grow: while ...: <four statements>", x)
+    P["grow_while"] = fc(x.test, {"target": "FTarget", "missing_demand": "FAcc"})
+    s1, s2, s3, s4 = x.body
+    expect(isinstance(s1, ast.Assign) and len(s1.targets) == 1 and isinstance(s1.targets[0], ast.Name) and src(s1.value) == "self.factory()",
+           "_grow: new_child = self.factory()", s1)
+    nc = s1.targets[0].id
+    expect(isinstance(s2, ast.Expr) and src(s2.value) == "self._hatchery.add(%s)" % nc, "_grow: self._hatchery.add(new_child)", s2)
+    scope = {"target": "FTarget", "missing_demand": "FAcc", "child": nc}
+    expect(isinstance(s3, ast.Assert), "_grow: assert on the new child", s3)
+    P["assert"] = fc(s3.test, scope)
+    P["missing_step"] = acc_update(s4, "missing_demand", scope)
+    expect(is_selfcall(b[2], "_reap_children") and not b[2].value.args and not b[2].value.keywords, "_grow: self._reap_children() last", b[2])
+    # ---- _reap_children
+    fn = find_function(tree, "_reap_children", cls=cls)
+    params(fn, ["self"])
+    b = body_of(fn)
+    expect(len(b) == 1 and isinstance(b[0], ast.For) and src(b[0].iter) == "list(self._hatchery)" and isinstance(b[0].target, ast.Name)
+           and not b[0].orelse and len(b[0].body) == 1, "_reap_children: for child in list(self._hatchery): if ...", fn)
+    ch = b[0].target.id
+    i1 = b[0].body[0]
+    expect(isinstance(i1, ast.If) and not i1.orelse and len(i1.body) == 1 and is_selfcall(i1.body[0], "_release_child")
+           and [src(a) for a in i1.body[0].value.args] == [ch] and not i1.body[0].value.keywords,
+           "_reap_children: if ...: self._release_child(child)", i1)
+    P["reap_if"] = fc(i1.test, {"child": ch})
+    # ---- _release_child
+    fn = find_function(tree, "_release_child", cls=cls)
+    params(fn, ["self", "child"])
+    b = body_of(fn)
+    expect(len(b) == 3 and isinstance(b[0], ast.Assign) and len(b[0].targets) == 1 and src(b[0].targets[0]) == "child.demand"
+           and isinstance(b[1], ast.Expr) and src(b[1].value) == "self._hatchery.discard(child)"
+           and isinstance(b[2], ast.Expr) and src(b[2].value) == "self._mortuary.add(child)",
+           "_release_child: child.demand = ...; self._hatchery.discard(child); self._mortuary.add(child)", fn)
+    P["release_demand"] = fx(b[0].value, {"child": "child"})
+    # ---- children (the collection `self.children` the sums range over)
+    fn = find_function(tree, "children", cls=cls, decorator="property")
+    b = body_of(fn)
+    expect(len(b) == 1 and isinstance(b[0], ast.Return) and src(b[0].value) == "[*self._hatchery,*self._mortuary]",
+           "children: return [*self._hatchery, *self._mortuary]", fn)
+    # ---- readers
+    R = {}
+    fn = find_function(tree, "supply", cls=cls, decorator="property")
+    b = body_of(fn)
+    expect(len(b) == 1 and isinstance(b[0], ast.Return), "supply: one return", fn)
+    R["supply"] = fx(b[0].value, {})
+    for name, key in (("utilisation", "util"), ("allocation", "alloc")):
+        fn = find_function(tree, name, cls=cls, decorator="property")
+        b = body_of(fn)
+        expect(len(b) == 2, "%s: two statements" % name, fn)
+        x = b[0]
+        ok = (isinstance(x, ast.Assign) and len(x.targets) == 1 and isinstance(x.targets[0], ast.Name) and isinstance(x.value, ast.ListComp)
+              and len(x.value.generators) == 1)
+        expect(ok, "%s: active = [child for child in self.children if ...]" % name, x)
+        g = x.value.generators[0]
+        expect(isinstance(g.target, ast.Name) and src(x.value.elt) == g.target.id and src(g.iter) == "self.children" and len(g.ifs) == 1
+               and not g.is_async, "%s: [child for child in self.children if <one condition>]" % name, x)
+        act = x.targets[0].id
+        R[key + "_if"] = fc(g.ifs[0], {"child": g.target.id})
+        t = b[1]
+        ok = (isinstance(t, ast.Try) and len(t.body) == 1 and isinstance(t.body[0], ast.Return) and len(t.handlers) == 1 and not t.orelse
+              and not t.finalbody and isinstance(t.handlers[0].type, ast.Name) and t.handlers[0].type.id == "ZeroDivisionError"
+              and len(t.handlers[0].body) == 1 and isinstance(t.handlers[0].body[0], ast.Return))
+        expect(ok, "%s: try: return ... except ZeroDivisionError: return ..." % name, t)
+        d = t.body[0].value
+        ok = (isinstance(d, ast.BinOp) and isinstance(d.op, ast.Div) and src(d.right) == "len(%s)" % act
+              and isinstance(d.left, ast.Call) and src(d.left.func) == "sum" and len(d.left.args) == 1 and not d.left.keywords
+              and isinstance(d.left.args[0], ast.GeneratorExp) and len(d.left.args[0].generators) == 1)
+        expect(ok, "%s: sum(child.<a> for child in active) / len(active)" % name, t)
+        g2 = d.left.args[0].generators[0]
+        elt = d.left.args[0].elt
+        expect(isinstance(g2.target, ast.Name) and not g2.ifs and src(g2.iter) == act and isinstance(elt, ast.Attribute)
+               and src(elt.value) == g2.target.id and elt.attr in ATTR, "%s: the summed attribute" % name, t)
+        R[key + "_attr"] = ATTR[elt.attr]
+        fb = t.handlers[0].body[0].value
+        expect(isinstance(fb, ast.Constant) and type(fb.value) in (int, float) and float(fb.value).is_integer(), "%s: integral fallback" % name, t)
+        R[key + "_fallback"] = "(%d)" % int(fb.value)
+    # ---- demand (a plain stored value) and __init__
+    fn = find_function(tree, "demand", cls=cls, decorator="property")
+    b = body_of(fn)
+    expect(len(b) == 1 and isinstance(b[0], ast.Return) and src(b[0].value) == "self._demand", "demand: return self._demand", fn)
+    fn = find_function(tree, "demand", cls=cls, decorator="demand.setter")
+    b = body_of(fn)
+    expect(len(b) == 1 and isinstance(b[0], ast.Assign) and src(b[0].targets[0]) == "self._demand" and len(fn.args.args) == 2
+           and src(b[0].value) == fn.args.args[1].arg, "demand setter: self._demand = value", fn)
+    fn = find_function(tree, "__init__", cls=cls)
+    b = body_of(fn)
+    a = fn.args
+    expect(a.vararg is not None and a.vararg.arg == "children" and [x.arg for x in a.args] == ["self"]
+           and [x.arg for x in a.kwonlyargs] == ["factory", "interval"] and not a.kwarg, "__init__(self, *children, factory, interval)", fn)
+    stm = {src(x.targets[0]): x.value for x in b if isinstance(x, ast.Assign) and len(x.targets) == 1}
+    expect(len(stm) == len(b) == 5 and set(stm) == {"self._demand", "self._hatchery", "self._mortuary", "self.factory", "self.interval"},
+           "__init__: exactly the five attribute assignments", fn)
+    expect(src(stm["self._hatchery"]) == "set(children)" and src(stm["self._mortuary"]) == "weakref.WeakSet()"
+           and src(stm["self.factory"]) == "factory" and src(stm["self.interval"]) == "interval", "__init__: hatchery / mortuary / factory / interval", fn)
+    d = stm["self._demand"]
+    ok = (isinstance(d, ast.Call) and src(d.func) == "sum" and len(d.args) == 1 and not d.keywords and isinstance(d.args[0], ast.GeneratorExp)
+          and len(d.args[0].generators) == 1 and not d.args[0].generators[0].ifs and src(d.args[0].generators[0].iter) == "children"
+          and isinstance(d.args[0].elt, ast.Attribute) and src(d.args[0].elt.value) == src(d.args[0].generators[0].target)
+          and d.args[0].elt.attr in ATTR)
+    expect(ok, "__init__: self._demand = sum(child.<a> for child in children)", fn)
+    R["init_attr"] = ATTR[d.args[0].elt.attr]
+    order = ["run_cond", "run_target", "sort_key", "excess_init", "break_if", "release_if", "excess_step", "missing_init",
+             "grow_while", "assert", "missing_step", "reap_if", "release_demand"]
+    out = ["(* GENERATED on every run by py2coq from src/cobald/composite/factory.py -- do not edit *)",
+           "From Coq Require Import ZArith.",
+           "From Cobald Require Import model.Factory kit.FactoryIR.",
+           "Open Scope Z_scope.", "",
+           "Definition gen_factory_params : fparams := mkParams"]
+    out += ["  %s   (* %s *)" % (P[k], k) for k in order]
+    out[-1] = out[-1].replace("   (*", ".   (*", 1)
+    rorder = ["supply", "util_if", "util_attr", "util_fallback", "alloc_if", "alloc_attr", "alloc_fallback", "init_attr"]
+    out += ["", "Definition gen_factory_rparams : rparams := mkRParams"]
+    out += ["  %s   (* %s *)" % (R[k], k) for k in rorder]
+    out[-1] = out[-1].replace("   (*", ".   (*", 1)
+    return "\n".join(out) + "\n"
+
+
 UNITS = {"Gen_registry.v": gen_registry, "Gen_standardiser.v": gen_standardiser, "Gen_controllers.v": gen_controllers, "Gen_guard.v": gen_guard,
-         "Gen_composite.v": gen_composite}
+         "Gen_composite.v": gen_composite, "Gen_factory.v": gen_factory}
 
 
 def regen(repo, gendir, names=None):
